@@ -1,8 +1,10 @@
 //! C12 — copy / merge / rewrite / repair keep the content they keep.
 //!
 //! Op lines (`|` separates what the Lean model reads from the raw store the real commands run on):
-//!   c12 merge   <trees…>                       | <store>
+//!   c12 merge   <trees…>                       | [M:<i,j,…>] <store>   (M: the snapshots merged, indices in label order,
+//!                                                                      repeats allowed; default: all, once each)
 //!   c12 rewrite <x:path:isdir…> <trees…>        | G:<glob-hex>… <store>
+//!   c12 rewrite2 …                                                   (the same rewrite applied twice: idempotent)
 //!   c12 repair  <h:id…> <trees…>                | <store>          (store = damaged + `repair index` done)
 //!   c12 copy    <k:…/t:… blob keys> <…>         | <store>
 //! Trees are serialised in pre-order: `S` (next snapshot, in label order), `L:<name>:<key>:<tag>` (non-dir),
@@ -13,6 +15,10 @@
 //! hash of everything else in the node (type, content ids, metadata, link target).
 //! Observation of merge/rewrite/repair: the resulting snapshot trees as listings
 //!   `path|d/l|key|tag;…`  (snapshots joined by ` # `, in label order).
+//! Merge ties: when several *differing* nodes of one path share the maximal key the ordering does not determine the
+//! winner (the code takes the last maximum in `BinaryHeap` pop order).  Both sides then print `path|T|key|c+c+…` (the
+//! sorted candidate codes `2*tag + isdir`) and list the children only if all candidates are directories; the real winner
+//! must be one of the candidates (otherwise it is printed as it is and disagrees with the model).
 use std::collections::{BTreeMap, BTreeSet};
 use std::path::PathBuf;
 
@@ -163,6 +169,36 @@ fn show_listing(enc: &mut Enc, t: &Option<Vec<TNode>>) -> String {
             let mut v = Vec::new();
             enc.listing(ts, "", &mut v);
             if v.is_empty() { "-".into() } else { v.join(";") }
+        }
+    }
+}
+
+/// listing of a merge result with ties canonicalised (see the module comment); `inputs` = the node lists merged here
+fn merge_listing(enc: &mut Enc, res: &[TNode], inputs: &[&[TNode]], prefix: &str, out: &mut Vec<String>) {
+    for r in res {
+        let group: Vec<&TNode> = inputs.iter().filter_map(|l| l.iter().find(|t| t.name == r.name)).collect();
+        let maxkey = group.iter().map(|t| t.key).max().unwrap_or(r.key);
+        let mut cands: Vec<usize> = group.iter().filter(|t| t.key == maxkey).map(|t| enc.tag(&t.tag) * 2 + usize::from(t.is_dir)).collect();
+        cands.sort_unstable();
+        cands.dedup();
+        let own = enc.tag(&r.tag) * 2 + usize::from(r.is_dir);
+        let p = if prefix.is_empty() { enc.name(&r.name) } else { format!("{prefix}/{}", enc.name(&r.name)) };
+        let subs: Vec<&[TNode]> = group
+            .iter()
+            .filter(|t| t.is_dir)
+            .filter_map(|t| if let Sub::Tree(s) = &t.sub { Some(s.as_slice()) } else { None })
+            .collect();
+        let descend = if cands.len() > 1 && cands.contains(&own) && r.key == maxkey {
+            out.push(format!("{p}|T|{maxkey}|{}", cands.iter().map(usize::to_string).collect::<Vec<_>>().join("+")));
+            cands.iter().all(|c| c % 2 == 1)
+        } else {
+            out.push(format!("{p}|{}|{}|{}", if r.is_dir { "d" } else { "l" }, r.key, enc.tag(&r.tag)));
+            r.is_dir
+        };
+        if descend {
+            if let Sub::Tree(s) = &r.sub {
+                merge_listing(enc, s, &subs, &p, out);
+            }
         }
     }
 }
@@ -338,15 +374,24 @@ fn finish_line(op: &str, model: Vec<String>, extra: Vec<String>, h: &RepoHandle)
 
 // ---- merge ------------------------------------------------------------------------------------------------
 
-fn merge_model(h: &RepoHandle) -> Option<Vec<String>> {
+/// the snapshots a merge op takes: all in label order, or those selected by `M:i,j,…` (repeats allowed)
+fn select_snaps(h: &RepoHandle, sel: Option<&[usize]>) -> Option<Vec<SnapshotFile>> {
     let snaps = snaps_by_label(h)?;
+    match sel {
+        None => Some(snaps),
+        Some(ix) => ix.iter().map(|i| snaps.get(*i).cloned()).collect(),
+    }
+}
+
+fn merge_model(h: &RepoHandle, sel: Option<&[usize]>) -> Option<Vec<String>> {
+    let snaps = select_snaps(h, sel)?;
     let trees = load_all(h, &snaps)?;
     let mut enc = Enc::new(&trees);
     Some(tree_tokens(&mut enc, &trees))
 }
 
-fn merge_exec(h: &RepoHandle) -> String {
-    let Some(snaps) = snaps_by_label(h) else { return "err:snapshots".into() };
+fn merge_exec(h: &RepoHandle, sel: Option<&[usize]>) -> String {
+    let Some(snaps) = select_snaps(h, sel) else { return "err:snapshots".into() };
     let Some(trees) = load_all(h, &snaps) else { return "err:load".into() };
     let mut enc = Enc::new(&trees);
     let _ = tree_tokens(&mut enc, &trees); // same tag numbering as the model tokens
@@ -374,7 +419,11 @@ fn merge_exec(h: &RepoHandle) -> String {
     if tree_digest(&repo, merged.tree).is_err() {
         return "oracle-fail:merge-unreadable".into();
     }
-    format!("ok {}", show_listing(&mut enc, &res))
+    let Some(res) = res else { return "ok unreadable".into() };
+    let inputs: Vec<&[TNode]> = trees.iter().flatten().map(Vec::as_slice).collect();
+    let mut v = Vec::new();
+    merge_listing(&mut enc, &res, &inputs, "", &mut v);
+    format!("ok {}", if v.is_empty() { "-".into() } else { v.join(";") })
 }
 
 // ---- rewrite ----------------------------------------------------------------------------------------------
@@ -421,7 +470,9 @@ fn rewrite_model(h: &RepoHandle, globs: &[String]) -> Option<Vec<String>> {
     Some(out)
 }
 
-fn rewrite_exec(h: &RepoHandle, globs: &[String]) -> String {
+/// `nothing_excluded`: no path of any snapshot is excluded, or the root path itself is (then the snapshot is left
+/// alone) — the trees must keep their ids.  `twice`: the rewrite is applied again to its own result.
+fn rewrite_exec(h: &RepoHandle, globs: &[String], nothing_excluded: bool, twice: bool) -> String {
     let Some(snaps) = snaps_by_label(h) else { return "err:snapshots".into() };
     let Some(trees) = load_all(h, &snaps) else { return "err:load".into() };
     let mut enc = Enc::new(&trees);
@@ -431,10 +482,29 @@ fn rewrite_exec(h: &RepoHandle, globs: &[String]) -> String {
         Err(e) => return errkind(&e),
     };
     let topts = RewriteTreesOptions::default().excludes(Excludes::default().globs(globs.to_vec()));
-    let new = match repo.rewrite_snapshots_and_trees(snaps.clone(), &RewriteOptions::default(), &topts) {
+    let mut new = match repo.rewrite_snapshots_and_trees(snaps.clone(), &RewriteOptions::default(), &topts) {
         Ok(s) => s,
         Err(e) => return errkind(&e),
     };
+    if nothing_excluded && snaps.iter().any(|s| new.iter().any(|n| n.label == s.label && n.tree != s.tree)) {
+        return "oracle-fail:rewrite-nothing-excluded-tree-changed".into();
+    }
+    if twice {
+        // the snapshots as they are after the first pass (the rewritten copy where there is one)
+        let cur: Vec<SnapshotFile> = snaps.iter().map(|s| new.iter().find(|n| n.label == s.label).unwrap_or(s).clone()).collect();
+        let repo = match open_nc(h).and_then(Repository::to_indexed) {
+            Ok(r) => r,
+            Err(e) => return errkind(&e),
+        };
+        let again = match repo.rewrite_snapshots_and_trees(cur.clone(), &RewriteOptions::default(), &topts) {
+            Ok(s) => s,
+            Err(e) => return errkind(&e),
+        };
+        if cur.iter().any(|c| again.iter().any(|n| n.label == c.label && n.tree != c.tree)) {
+            return "oracle-fail:rewrite-not-idempotent".into();
+        }
+        new = cur.iter().map(|c| again.iter().find(|n| n.label == c.label).unwrap_or(c).clone()).collect();
+    }
     let repo = match open_nc(h).and_then(Repository::to_indexed) {
         Ok(r) => r,
         Err(e) => return errkind(&e),
@@ -641,19 +711,20 @@ fn copy_exec(h: &RepoHandle, dest_v1: bool, dest_comp: i32) -> String {
     }
     cfg.set_datapack_size = Some(bytesize::ByteSize(2000));
     let Some(hd) = init_repo(&cfg, dest_v1) else { return "err:dest-init".into() };
-    let run = || -> Result<(), Box<rustic_core::RusticError>> {
+    let run_n = |n: usize| -> Result<(), Box<rustic_core::RusticError>> {
         let src = open_nc(h)?.to_indexed()?;
         let dst = open_nc(&hd)?.to_indexed_ids()?;
-        src.copy(&dst, snaps.iter())
+        src.copy(&dst, snaps.iter().take(n))
     };
-    let verify = || -> Option<&'static str> {
+    let run = || run_n(snaps.len());
+    let verify_n = |n: usize| -> Option<&'static str> {
         // compare by label: every copied snapshot must read back identically in the destination
         let Some(dsnaps) = snaps_by_label(&hd) else { return Some("oracle-fail:copy-dest-snapshots") };
         let drepo = match open_nc(&hd).and_then(Repository::to_indexed) {
             Ok(r) => r,
             Err(_) => return Some("oracle-fail:copy-dest-index"),
         };
-        for s in &snaps {
+        for s in snaps.iter().take(n) {
             let want = src_digests.get(&s.id.to_hex().to_string());
             let got = dsnaps.iter().find(|d| d.label == s.label).and_then(|d| tree_digest(&drepo, d.tree).ok());
             if want.is_none() || got.as_ref() != want {
@@ -665,6 +736,18 @@ fn copy_exec(h: &RepoHandle, dest_v1: bool, dest_comp: i32) -> String {
         }
         None
     };
+    let verify = || verify_n(snaps.len());
+    // incremental copy: first only the first half of the snapshots, so that the full copy below finds a destination that already
+    // holds some of the blobs (shared sub-trees and chunks) but not all
+    if snaps.len() >= 2 {
+        let k = snaps.len() / 2;
+        if let Err(e) = run_n(k) {
+            return errkind(&e);
+        }
+        if let Some(f) = verify_n(k) {
+            return format!("{f}-partial-run");
+        }
+    }
     if let Err(e) = run() {
         return errkind(&e);
     }
@@ -687,7 +770,7 @@ fn handle_of(toks: &[&str]) -> Option<(RepoHandle, Vec<String>)> {
     let mut extra = Vec::new();
     let mut rest = Vec::new();
     for t in toks {
-        if t.starts_with("G:") || t.starts_with("O:") {
+        if t.starts_with("G:") || t.starts_with("O:") || t.starts_with("M:") {
             extra.push((*t).to_string());
         } else {
             rest.push(*t);
@@ -706,9 +789,16 @@ pub fn exec(toks: &[&str]) -> String {
     guarded(std::panic::AssertUnwindSafe(move || {
         let globs: Vec<String> =
             extra.iter().filter_map(|g| g.strip_prefix("G:")).filter_map(unhex).map(|b| String::from_utf8_lossy(&b).to_string()).collect();
+        let sel: Option<Vec<usize>> = match extra.iter().find_map(|g| g.strip_prefix("M:")) {
+            None => None,
+            Some(l) => match l.split(',').map(|x| x.parse::<usize>().ok()).collect::<Option<Vec<_>>>() {
+                Some(v) => Some(v),
+                None => return "bad-op".to_string(),
+            },
+        };
         let recomputed = match op.as_str() {
-            "merge" => merge_model(&h),
-            "rewrite" => rewrite_model(&h, &globs),
+            "merge" => merge_model(&h, sel.as_deref()),
+            "rewrite" | "rewrite2" => rewrite_model(&h, &globs),
             "repair" => repair_model(&h),
             "copy" => copy_model(&h),
             _ => return "bad-op".to_string(),
@@ -717,8 +807,11 @@ pub fn exec(toks: &[&str]) -> String {
             return "oracle-fail:abstraction-mismatch".to_string();
         }
         match op.as_str() {
-            "merge" => merge_exec(&h),
-            "rewrite" => rewrite_exec(&h, &globs),
+            "merge" => merge_exec(&h, sel.as_deref()),
+            "rewrite" | "rewrite2" => {
+                let nothing = !model.iter().any(|t| t.starts_with("x:")) || model.iter().any(|t| t == "x::1");
+                rewrite_exec(&h, &globs, nothing, op == "rewrite2")
+            }
             "repair" => repair_exec(&h),
             _ => {
                 let o = extra.iter().find_map(|g| g.strip_prefix("O:")).unwrap_or("0:0");
@@ -768,6 +861,323 @@ fn escape_order_repo() -> Option<RepoHandle> {
     Some(h)
 }
 
+// ---------------------------------------------------------------------------------------------------------
+// corner-case scenarios (merge / rewrite)
+
+const T0: i64 = 1_600_000_000;
+
+fn e_file(path: &[Vec<u8>], content: &[u8], mtime: i64, mode: u32) -> SrcEntry {
+    SrcEntry { path: path.to_vec(), kind: SrcKind::File(content.to_vec()), mode, mtime_s: mtime, ctime_s: mtime, inode: 0, links: 1 }
+}
+fn e_dir(path: &[Vec<u8>], mtime: i64, mode: u32) -> SrcEntry {
+    SrcEntry { path: path.to_vec(), kind: SrcKind::Dir, mode, mtime_s: mtime, ctime_s: mtime, inode: 0, links: 1 }
+}
+fn e_link(path: &[Vec<u8>], target: &[u8], mtime: i64) -> SrcEntry {
+    SrcEntry { path: path.to_vec(), kind: SrcKind::Symlink(target.to_vec()), mode: 0o777, mtime_s: mtime, ctime_s: mtime, inode: 0, links: 1 }
+}
+fn pth(cs: &[&[u8]]) -> Vec<Vec<u8>> {
+    cs.iter().map(|c| c.to_vec()).collect()
+}
+
+/// parameters of a random source tree with explicit directory entries
+struct Shape<'a> {
+    pool: &'a [&'a [u8]],
+    max_depth: usize,
+    max_children: u64,
+    /// chance of a directory (in 1/8) while depth is left
+    p_dir8: u64,
+    /// mtimes are `T0 + pick(mtimes)`: a small set makes ties between snapshots frequent
+    mtimes: &'a [i64],
+    /// vary the mode bits (differing nodes with equal mtime)
+    modes: bool,
+}
+
+fn gen_shape(rng: &mut Rng, sh: &Shape, prefix: &mut Vec<Vec<u8>>, depth: usize, out: &mut Vec<SrcEntry>) {
+    let k = 1 + rng.below(sh.max_children) as usize;
+    let mut used: BTreeSet<&[u8]> = BTreeSet::new();
+    for _ in 0..k {
+        let name: &[u8] = *rng.pick(sh.pool);
+        if !used.insert(name) {
+            continue;
+        }
+        prefix.push(name.to_vec());
+        let mtime = T0 + *rng.pick(sh.mtimes);
+        let is_dir = depth < sh.max_depth && rng.below(8) < sh.p_dir8;
+        if is_dir {
+            out.push(e_dir(prefix, mtime, if sh.modes && rng.chance(1, 2) { 0o700 } else { 0o755 }));
+            // sometimes an empty directory
+            if !rng.chance(1, 6) {
+                gen_shape(rng, sh, prefix, depth + 1, out);
+            }
+        } else if rng.chance(1, 6) {
+            out.push(e_link(prefix, if rng.chance(1, 2) { b"t1" } else { b"t2" }, mtime));
+        } else {
+            let content: &[u8] = *rng.pick(&[&b""[..], b"x", b"yy", b"same"]);
+            out.push(e_file(prefix, content, mtime, if sh.modes && rng.chance(1, 2) { 0o600 } else { 0o644 }));
+        }
+        _ = prefix.pop();
+    }
+}
+
+fn shape_source(rng: &mut Rng, sh: &Shape) -> MemSource {
+    let mut es = Vec::new();
+    gen_shape(rng, sh, &mut Vec::new(), 1, &mut es);
+    MemSource::new(es)
+}
+
+/// a snapshot whose root tree is the empty tree (no `src` node at all)
+fn empty_root_snapshot(h: &RepoHandle, label: &str) -> Option<()> {
+    let repo = open_nc(h).ok()?;
+    let (bytes, id) = Tree::default().serialize().ok()?;
+    _ = rustic_core::verif::packer::pack_blobs(&repo, vec![(rustic_core::repofile::BlobType::Tree, bytes, rustic_core::BlobId::from(*id))]).ok()?;
+    let mut snap = SnapshotFile::default();
+    snap.label = label.to_string();
+    snap.tree = id;
+    _ = rustic_core::verif::repository::save_file(&repo, &snap).ok()?;
+    Some(())
+}
+
+/// repository with one snapshot per source (`None` = a snapshot with an empty root tree), labels `s0`, `s1`, …
+fn build_from(rng: &mut Rng, sources: &[Option<MemSource>]) -> Option<RepoHandle> {
+    let h = init_repo(&small_cfg(rng), false)?;
+    for (k, src) in sources.iter().enumerate() {
+        match src {
+            Some(src) => _ = backup_labelled(&h, src, &format!("s{k}"))?,
+            None => empty_root_snapshot(&h, &format!("s{k}"))?,
+        }
+    }
+    Some(h)
+}
+
+const PLAIN: [&[u8]; 3] = [b"a", b"b", b"c"];
+const TWO: [&[u8]; 2] = [b"a", b"b"];
+
+/// one merge corner case: (kind, sources, selection)
+fn merge_corner(rng: &mut Rng) -> (&'static str, Vec<Option<MemSource>>, Option<Vec<usize>>) {
+    let distinct = |k: usize| -> Vec<i64> { (0..4).map(|j| 1000 * k as i64 + 10 * j + 1).collect() };
+    match rng.below(9) {
+        // the same name as file / directory / symlink / absent in 2–4 snapshots, strict ordering
+        0 => {
+            let n = 2 + rng.below(3) as usize;
+            let order: Vec<usize> = { let mut v: Vec<usize> = (0..n).collect(); for i in (1..n).rev() { v.swap(i, rng.below(i as u64 + 1) as usize); } v };
+            let srcs = (0..n).map(|k| Some(shape_source(rng, &Shape { pool: &PLAIN, max_depth: 3, max_children: 3, p_dir8: 4, mtimes: &distinct(order[k]), modes: false }))).collect();
+            ("type-conflict", srcs, None)
+        }
+        // a directory of the same name in 3–4 snapshots: recursive merge over all of them
+        1 => {
+            let n = 3 + rng.below(2) as usize;
+            let srcs = (0..n).map(|k| Some(shape_source(rng, &Shape { pool: &TWO, max_depth: 4, max_children: 2, p_dir8: 6, mtimes: &distinct(n - 1 - k), modes: false }))).collect();
+            ("dirs-3plus", srcs, None)
+        }
+        // identical mtimes on differing nodes (file/file, dir/dir with other mode, file/dir)
+        2 | 3 => {
+            let n = 2 + rng.below(3) as usize;
+            let all_tied = rng.chance(1, 2);
+            let srcs = (0..n).map(|_| Some(shape_source(rng, &Shape { pool: &TWO, max_depth: 3, max_children: 2, p_dir8: 4, mtimes: if all_tied { &[5] } else { &[5, 5, 6] }, modes: true }))).collect();
+            ("ties", srcs, None)
+        }
+        // one (or every) snapshot has an empty root tree
+        4 => {
+            let n = 1 + rng.below(3) as usize;
+            let all_empty = rng.chance(1, 5);
+            let at = rng.below(n as u64) as usize;
+            let srcs = (0..n)
+                .map(|k| if all_empty || k == at { None } else { Some(shape_source(rng, &Shape { pool: &PLAIN, max_depth: 2, max_children: 3, p_dir8: 3, mtimes: &distinct(k), modes: false })) })
+                .collect();
+            ("empty-root", srcs, None)
+        }
+        // a snapshot merged with itself (duplicate inputs), also next to others
+        5 => {
+            let n = 1 + rng.below(2) as usize;
+            let srcs: Vec<_> = (0..n).map(|k| Some(shape_source(rng, &Shape { pool: &PLAIN, max_depth: 3, max_children: 3, p_dir8: 4, mtimes: &distinct(k), modes: false }))).collect();
+            let m = 2 + rng.below(3) as usize;
+            let mut sel: Vec<usize> = (0..m).map(|_| rng.below(n as u64) as usize).collect();
+            sel[1] = sel[0];
+            ("duplicate-input", srcs, Some(sel))
+        }
+        // names whose escaped order differs from the raw byte order, nested, 2–4 snapshots
+        6 => {
+            let n = 2 + rng.below(3) as usize;
+            let srcs = (0..n).map(|k| Some(shape_source(rng, &Shape { pool: &NAMES, max_depth: 2, max_children: 5, p_dir8: 3, mtimes: &distinct(k), modes: false }))).collect();
+            ("escaped-names", srcs, None)
+        }
+        // deep nesting (6–9 levels) with conflicts far down
+        7 => {
+            let n = 2 + rng.below(2) as usize;
+            let depth = 6 + rng.below(4) as usize;
+            let srcs = (0..n).map(|k| Some(shape_source(rng, &Shape { pool: &TWO, max_depth: depth, max_children: 2, p_dir8: 7, mtimes: &distinct(k), modes: false }))).collect();
+            ("deep", srcs, None)
+        }
+        // a single snapshot
+        _ => {
+            let src = shape_source(rng, &Shape { pool: &NAMES, max_depth: 3, max_children: 4, p_dir8: 4, mtimes: &distinct(0), modes: false });
+            ("single", vec![Some(src)], Some(vec![0]))
+        }
+    }
+}
+
+/// escape glob meta characters so that the glob matches exactly this name
+fn glob_escape(name: &str) -> String {
+    let mut o = String::new();
+    for c in name.chars() {
+        if "\\*?[]{}!#".contains(c) {
+            o.push('\\');
+        }
+        o.push(c);
+    }
+    o
+}
+
+const ODD_NAMES: [&[u8]; 12] = [b"a b", b"[x]", b"*s", b"q?", b"\"q", b"\\z", b"\xc3\xa9", b"{a,b}", b"!bang", b"#h", b" lead", b"x"];
+
+/// one rewrite corner case: (kind, sources, globs)
+fn rewrite_corner(rng: &mut Rng) -> (&'static str, Vec<Option<MemSource>>, Vec<String>) {
+    let filler = |rng: &mut Rng, k: usize| shape_source(rng, &Shape { pool: &PLAIN, max_depth: 3, max_children: 3, p_dir8: 4, mtimes: &[1000 * k as i64 + 1, 1000 * k as i64 + 2], modes: false });
+    let f = |p: &[&[u8]], c: &[u8], t: i64| e_file(&pth(p), c, T0 + t, 0o644);
+    match rng.below(10) {
+        // a glob that excludes the root path itself: the snapshot is left as it is
+        0 => {
+            let n = 1 + rng.below(2) as usize;
+            let srcs = (0..n).map(|k| Some(filler(rng, k))).collect();
+            let mut globs = vec![(*rng.pick(&["!**", "!*", "!/", "!/**", "!**/", "!/*"])).to_string()];
+            if rng.chance(1, 2) {
+                globs.push("!a".into());
+            }
+            ("root", srcs, globs)
+        }
+        // every entry of a directory excluded: the directory stays, empty
+        1 => {
+            let k = 1 + rng.below(4);
+            let mut es = vec![f(&[b"keep"], b"k", 1)];
+            for i in 0..k {
+                let name = format!("e{i}");
+                if rng.chance(1, 3) {
+                    es.push(f(&[b"d", name.as_bytes(), b"in"], b"v", 2));
+                } else {
+                    es.push(f(&[b"d", name.as_bytes()], b"v", 2));
+                }
+            }
+            let g = *rng.pick(&["!/src/d/*", "!src/d/*", "!/src/d/**", "!e*", "!**/d/*"]);
+            ("dir-emptied", vec![Some(MemSource::new(es))], vec![g.to_string()])
+        }
+        // a nested directory excluded while a deeper sibling is kept
+        2 => {
+            let es = vec![f(&[b"a", b"b", b"f"], b"1", 1), f(&[b"a", b"b", b"g", b"h"], b"2", 2), f(&[b"a", b"c", b"d", b"e", b"i"], b"3", 3), f(&[b"a", b"c", b"b"], b"4", 4), f(&[b"b"], b"5", 5)];
+            let g = *rng.pick(&["!/src/a/b", "!**/a/b/", "!/src/a/b/", "!**/a/b", "!b/", "!/src/a/c/d/e", "!src/a/c/d"]);
+            ("nested-dir", vec![Some(MemSource::new(es))], vec![g.to_string()])
+        }
+        // a name that is a directory in one place and a file in another
+        3 => {
+            let mut es = vec![f(&[b"p", b"x", b"in"], b"1", 1), f(&[b"q", b"x"], b"2", 2), f(&[b"r", b"y"], b"3", 3)];
+            if rng.chance(1, 2) {
+                es.push(e_link(&pth(&[b"r", b"x"]), b"p/x", T0 + 4));
+            }
+            let mut srcs = vec![Some(MemSource::new(es))];
+            if rng.chance(1, 2) {
+                // and the other way round in a second snapshot
+                srcs.push(Some(MemSource::new(vec![f(&[b"p", b"x"], b"1", 1001), f(&[b"q", b"x", b"in"], b"2", 1002)])));
+            }
+            let g = *rng.pick(&["!x/", "!x", "!/src/q/x", "!/src/p/x/", "!**/x/**", "!**/x/in"]);
+            ("dir-vs-file", srcs, vec![g.to_string()])
+        }
+        // names that need escaping in a glob (and in the stored tree)
+        4 | 5 => {
+            let mut es = Vec::new();
+            let mut seen = BTreeSet::new();
+            for i in 0..(2 + rng.below(5)) {
+                let nm: &[u8] = *rng.pick(&ODD_NAMES);
+                let path: Vec<&[u8]> = if rng.chance(1, 3) { vec![b"d", nm] } else { vec![nm] };
+                if seen.insert(path.clone()) {
+                    es.push(f(&path, b"o", i as i64 + 1));
+                }
+            }
+            // mostly a name that is present
+            let present: Vec<&[u8]> = es.iter().filter_map(|e| e.path.last().map(Vec::as_slice)).collect();
+            let tn: &[u8] = if rng.chance(3, 4) { *rng.pick(&present) } else { *rng.pick(&ODD_NAMES) };
+            let target = String::from_utf8_lossy(tn).to_string();
+            // exactly that name, or the unescaped (meta) reading of it
+            let g = if rng.chance(2, 3) { format!("!{}", glob_escape(&target)) } else { format!("!{target}") };
+            ("odd-names", vec![Some(MemSource::new(es))], vec![g])
+        }
+        // a symbolic link excluded (by name; a directory-only pattern must not match it)
+        6 => {
+            let es = vec![e_link(&pth(&[b"lnk"]), b"a/f", T0 + 1), e_link(&pth(&[b"a", b"lnk"]), b"f", T0 + 2), f(&[b"a", b"f"], b"1", 3), f(&[b"lnk2"], b"2", 4)];
+            let g = *rng.pick(&["!lnk", "!lnk", "!lnk/", "!/src/lnk", "!**/a/lnk", "!lnk*"]);
+            ("symlink", vec![Some(MemSource::new(es))], vec![g.to_string()])
+        }
+        // snapshots sharing a subtree (same tree id), the shared subtree is hit — at the same path, at different paths
+        // (anchored glob hits one of them), or twice inside one snapshot
+        7 | 8 => {
+            let shared = |top: &[u8]| -> Vec<SrcEntry> { vec![f(&[top, b"sh", b"f1"], b"1", 1), f(&[top, b"sh", b"f2"], b"2", 2), f(&[top, b"sh", b"sub", b"f3"], b"3", 3)] };
+            let variant = rng.below(3);
+            let mut srcs = Vec::new();
+            let n = 2 + rng.below(2) as usize;
+            for k in 0..n {
+                let mut es = match variant {
+                    0 => shared(b"p"),
+                    1 => shared(if k % 2 == 0 { b"p" } else { b"q" }),
+                    _ => { let mut v = shared(b"p"); v.extend(shared(b"q")); v }
+                };
+                es.push(f(&[b"own"], format!("o{k}").as_bytes(), 1000 * k as i64 + 7));
+                srcs.push(Some(MemSource::new(es)));
+            }
+            let g = *rng.pick(&["!f1", "!/src/p/sh/f1", "!**/sh/sub", "!/src/q/sh/sub/", "!/src/p/sh", "!**/sub/f3", "!/src/p/**/f2"]);
+            ("shared-subtree", srcs, vec![g.to_string()])
+        }
+        // globs that match nothing: the trees keep their ids
+        _ => {
+            let n = 1 + rng.below(3) as usize;
+            let mut srcs: Vec<Option<MemSource>> = (0..n).map(|k| Some(filler(rng, k))).collect();
+            if rng.chance(1, 4) {
+                srcs.push(None);
+            }
+            // the top-level directory excluded: the root tree becomes empty
+            if rng.chance(1, 5) {
+                let g = *rng.pick(&["!src/", "!/src", "!src", "!s*"]);
+                return ("top-excluded", srcs, vec![g.to_string()]);
+            }
+            let g = *rng.pick(&["!nomatch*", "!/zzz/**", "!/a", "!a/b/c/d/e/f", "!*.txt", "!src/a/b/c/d/e/f"]);
+            ("no-match", srcs, vec![g.to_string()])
+        }
+    }
+}
+
+fn corner_cases(n: usize, rng: &mut Rng, ops: &mut Vec<String>, stats: &mut Stats) {
+    for _ in 0..n {
+        let mut r = rng.fork();
+        let (kind, srcs, sel) = merge_corner(&mut r);
+        match build_from(&mut r, &srcs).and_then(|h| merge_model(&h, sel.as_deref()).map(|m| (h, m))) {
+            Some((h, m)) => {
+                stats.hit(format!("merge.corner.{kind}"));
+                let extra = sel.iter().map(|v| format!("M:{}", v.iter().map(usize::to_string).collect::<Vec<_>>().join(","))).collect();
+                ops.push(finish_line("merge", m, extra, &h));
+            }
+            None => stats.hit(format!("merge.corner.{kind}.not-built")),
+        }
+        let mut r = rng.fork();
+        let (kind, srcs, globs) = rewrite_corner(&mut r);
+        let twice = r.chance(1, 3);
+        match build_from(&mut r, &srcs).and_then(|h| rewrite_model(&h, &globs).map(|m| (h, m))) {
+            Some((h, m)) => {
+                stats.hit(format!("rewrite.corner.{kind}"));
+                if m.iter().any(|t| t == "x::1") {
+                    stats.hit("rewrite.root-excluded");
+                } else if m.iter().any(|t| t.starts_with("x:")) {
+                    stats.hit(format!("rewrite.corner.{kind}.some-excluded"));
+                } else {
+                    stats.hit("rewrite.corner.none-excluded");
+                }
+                if twice {
+                    stats.hit("rewrite.twice");
+                }
+                let extra = globs.iter().map(|g| format!("G:{}", hex(g.as_bytes()))).collect();
+                ops.push(finish_line(if twice { "rewrite2" } else { "rewrite" }, m, extra, &h));
+            }
+            None => stats.hit(format!("rewrite.corner.{kind}.not-built")),
+        }
+    }
+}
+
 const GLOBS: [&str; 12] = ["!a", "!b", "!a/", "!*/b", "!**/c", "!/a/b", "!zz", "!B", "!a*", "!**", "b", "!src/a"];
 
 fn damage_for_repair(h: &RepoHandle, rng: &mut Rng, stats: &mut Stats) -> Option<()> {
@@ -799,7 +1209,7 @@ pub fn generate(thorough: bool, rng: &mut Rng, ops: &mut Vec<String>, stats: &mu
         None => stats.hit("copy.collision-scenario-not-built"),
     }
     if let Some(h) = escape_order_repo() {
-        if let Some(m) = merge_model(&h) {
+        if let Some(m) = merge_model(&h, None) {
             stats.hit("merge.escaped-order-scenario");
             ops.push(finish_line("merge", m, vec![], &h));
         }
@@ -808,7 +1218,7 @@ pub fn generate(thorough: bool, rng: &mut Rng, ops: &mut Vec<String>, stats: &mu
         // merge
         let n_snaps = 1 + rng.below(4) as usize;
         if let Some(h) = build(rng, stats, n_snaps, i % 4 != 0) {
-            if let Some(m) = merge_model(&h) {
+            if let Some(m) = merge_model(&h, None) {
                 stats.hit(format!("merge.snaps.{n_snaps}"));
                 ops.push(finish_line("merge", m, vec![], &h));
             }
@@ -847,5 +1257,6 @@ pub fn generate(thorough: bool, rng: &mut Rng, ops: &mut Vec<String>, stats: &mu
             }
         }
     }
+    corner_cases(if thorough { 700 } else { 60 }, rng, ops, stats);
     let _ = (SingleFileSource { name: String::new(), content: vec![], mtime_s: 0 }, ft_idx(FileType::Pack), Store::new(), MasterKey::new());
 }
